@@ -296,30 +296,6 @@ theorem C05_action_templates_resolve :
     ∀ t ∈ templates, (addressable schema t) ≠ [] ∧ ∀ c ∈ addressable schema t, resolves schema c t = true := by
   decide +kernel
 
-/-- The permission rules on each action's route (allow-all edges dropped, combined validators flattened, in route
-order). This table is the contract C11 / C12 rely on; it is compared with the regenerated schema below. -/
-def expectedGuards (action : String) : List VAtom :=
-  let svc (s : String) : List VAtom := [.nodeIsOn, .serviceState s]
-  let app : List VAtom := [.nodeIsOn, .appState "RUNNING"]
-  let file : List VAtom := [.nodeIsOn, .folderExists, .folderNotDeleted, .folderFileExists, .fileNotDeleted]
-  let folder : List VAtom := [.nodeIsOn, .folderExists, .folderNotDeleted]
-  if action = "do-nothing" then []
-  else if action = "node-startup" then [.nodeIsOff]
-  else if action = "node-os-scan" then [.nodeIsOn, .nodeIsOn]
-  else if action ∈ ["node-service-scan", "node-service-stop", "node-service-pause", "node-service-restart",
-                    "node-service-fix"] then svc "RUNNING"
-  else if action = "node-service-start" then svc "STOPPED"
-  else if action = "node-service-resume" then svc "PAUSED"
-  else if action = "node-service-enable" then svc "DISABLED"
-  else if action ∈ ["node-application-scan", "node-application-close", "node-application-fix"] then app
-  else if action ∈ ["node-file-scan", "node-file-restore", "node-file-corrupt", "node-file-checkhash",
-                    "node-file-repair"] then file
-  else if action = "node-file-delete" then [.nodeIsOn, .fsFileExists]
-  else if action ∈ ["node-folder-scan", "node-folder-checkhash", "node-folder-repair", "node-folder-restore"] then folder
-  else if action ∈ ["host-nic-enable", "network-port-enable"] then [.nodeIsOn, .nicDisabled]
-  else if action ∈ ["host-nic-disable", "network-port-disable"] then [.nodeIsOn, .nicEnabled]
-  else [.nodeIsOn]
-
 /-- (c, table) For every regenerated template, every addressable node class and EVERY combination of software classes /
 firewall ports the walk admits, the non-trivial validators on the route are exactly `expectedGuards` (so they do not
 depend on which subclass is addressed); the do-nothing fall-backs meet none. -/
@@ -366,6 +342,65 @@ theorem C05_regenerated_action_never_unreachable (vn : VId → Validator) (inv :
     (hpres : present schema (pickNode schema c) rootMgr inv t.segs ρ = true) (env : Env) (d d' : Nat) :
     dispatchK env kids (instantiate ρ t.segs) d ≠ .unreachable d' :=
   C05_action_never_unreachable schema vn c t inv kids ρ hinst ((C05_action_templates_resolve t ht).2 c hc) hpres env d d'
+
+/-! ### component gates: the contract for RAW routes (every route, not only the ones an action forms) -/
+
+/-- level ↦ the component kind whose gates the classes of that level must carry (files carry none of their own: the
+folder's `file` edge guards them) -/
+def Level.root : Level → Option Root
+  | .node => some .node | .nic => some .nic | .service => some .service | .application => some .application
+  | .folder => some .folder | .file => none
+
+/-- does the static manager of class `c` carry, on every edge `k`, at least the rules `gate r k`? -/
+def gatesHold (S : Schema) (c : String) (r : Root) : Bool :=
+  match S.mgr c with
+  | some (.static es) => es.all (fun e => (gate r e.1).all (fun a => e.2.1.contains a))
+  | _ => false
+
+open Primaite.Gen.RequestSchema (rootOf) in
+/-- (table) EVERY class the regenerated schema derives from Node / NetworkInterface / Service / Application / FileSystem /
+Folder carries that kind's component gates on EVERY edge of its root manager — in particular every key a Node subclass adds
+(router `acl`, firewall `internal` / `dmz` / `external`, …) is power-gated — and every class a dynamic level can lead to is
+covered by the table. -/
+theorem C05_component_gates :
+    (∀ cr ∈ rootOf, gatesHold schema cr.1 cr.2 = true) ∧
+    (∀ lv ∈ [Level.node, .nic, .service, .application, .folder], ∀ c ∈ schema.levelClasses lv,
+        ∃ r, lv.root = some r ∧ (c, r) ∈ rootOf) ∧
+    ("FileSystem", Root.fileSystem) ∈ rootOf := by
+  decide +kernel
+
+/-- (general) On every live tree that is an instance of a schema whose class `c` carries the gates of kind `r`: a request
+that enters the root manager of a component of class `c` through key `k` while one of the gate rules of `(r, k)` is false —
+i.e. every live validator that contains that rule answers false for these options — is refused right there: `failure` at
+this depth, by the validator of that very edge; the handler is not reached. -/
+theorem C05_gate_refuses (S : Schema) (vn : VId → Validator) (c : String) (r : Root) (inv : Inv) (kids : Kids)
+    (hinst : Inst S vn c inv kids) (hg : gatesHold S c r = true)
+    (k : Key) (rest : List Key) (vs : Validator) (tgt : Target) (edges : List Edge)
+    (hm : S.mgr c = some (.static edges)) (hk : lookupE k edges = some (vs, tgt))
+    (a : VAtom) (ha : a ∈ gate r k) (env : Env)
+    (hfalse : ∀ v, a ∈ vn v → env v rest = false) (d : Nat) :
+    ∃ v, dispatchK env kids (k :: rest) d = .failure d v ∧ a ∈ vn v := by
+  have hmem := lookupE_mem hk
+  have hcontains : a ∈ vs := by
+    simp only [gatesHold, hm, List.all_eq_true] at hg
+    have := hg _ hmem a ha
+    simpa using this
+  cases hinst with
+  | @static _ _ _ edges' hm' hleaf hsub hrec =>
+    rw [hm] at hm'
+    cases hm'
+    cases tgt with
+    | leaf =>
+      obtain ⟨v, h, hlk, hvn⟩ := hleaf k vs hk
+      refine ⟨v, ?_, by rw [hvn]; exact hcontains⟩
+      simp [dispatchK, hlk, hfalse v (by rw [hvn]; exact hcontains)]
+    | sub m' =>
+      obtain ⟨v, kids', hlk, hvn⟩ := hsub k vs m' hk
+      refine ⟨v, ?_, by rw [hvn]; exact hcontains⟩
+      simp [dispatchK, hlk, hfalse v (by rw [hvn]; exact hcontains)]
+  | @dynamic _ _ _ lv ty vs' hm' hkey hrec =>
+    rw [hm] at hm'
+    cases hm'
 
 /-! ### further ties to the regenerated tables -/
 
@@ -482,5 +517,20 @@ example : present schema (pickNode schema "Router") rootMgr exInv (tmpl "router-
     dispatchK envAll exKids (instantiate (fun f => if f = "target_router" then "pc" else exRho f)
       (tmpl "router-acl-remove-rule").segs) 0 = .unreachable 3 := by
   decide +kernel
+
+/-! non-vacuity of `C05_gate_refuses`: the firewall's `internal` port route on a firewall that is not ON -/
+def exFwInv : Inv := .mk [(.nic, "i:1", "RouterInterface", .mk [])]
+def exFwKids : Kids := buildK schema exVid 10 "Firewall" exFwInv
+def exFwEdges : List Edge := match schema.mgr "Firewall" with | some (.static es) => es | _ => []
+
+theorem exFwKids_inst : Inst schema exVn "Firewall" exFwInv exFwKids :=
+  instB_sound schema exVn 10 "Firewall" exFwInv exFwKids (by decide +kernel)
+
+example : ∃ v, dispatchK envNodeOff exFwKids ("internal" :: ["inbound", "acl", "add_rule"]) 3 = .failure 3 v ∧
+    VAtom.nodeIsOn ∈ exVn v :=
+  C05_gate_refuses schema exVn "Firewall" .node exFwInv exFwKids exFwKids_inst
+    (C05_component_gates.1 ("Firewall", .node) (by decide +kernel)) "internal" _ [.nodeIsOn]
+    (.sub "Firewall._internal_acl_request_manager") exFwEdges (by decide +kernel) (by decide +kernel)
+    .nodeIsOn (by decide) envNodeOff (by intro v hv; simp [envNodeOff, hv]) 3
 
 end Primaite.Schema
